@@ -313,6 +313,25 @@ def run(chk):
     events, emeta = run_programs(chk, programs)
     validate(chk, events, emeta, "two-references")
 
+    # (e) long chains (MC_C11!ChainLens): through the real toposort_impl as a path graph, and as a program of aliases
+    events, emeta, programs = [], [], []
+    for c in [c for c in res.replays if c["mode"] == "chain"]:
+        n = int(c["len"])
+        # node i refers to node i+1; head_first: the head is node 1 (the walk starts there), leaf_first: the head is node n
+        adj = [[i + 2] if i + 1 < n else [] for i in range(n)] if c["dir"] == "head_first" else [[i] if i > 0 else [] for i in range(n)]
+        r = common.run_driver("topsort", [{"id": 0, "op": "toposort", "graph": [[x - 1 for x in row] for row in adj]}])[0]
+        if r["status"] != "ok":
+            chk.mismatch(f"C11/chain/panic", f"toposort_impl on a chain of {n}: {r.get('panic')}", {"adj": adj}, "no panic", r.get("panic"))
+            continue
+        events.append({"ev": "graph", "adj": adj, "order": [x + 1 for x in r["out"]]})
+        emeta.append(None)
+        names = [f"L{j:03}" for j in range(n)] if c["dir"] == "head_first" else [f"L{n - 1 - j:03}" for j in range(n)]
+        nodes = [{"name": nm, "kind": "alias", "renamed": False} for nm in names]
+        programs.append((nodes, [{"src": j, "dst": j + 1, "carrier": "alias", "wrapper": "vec", "ovr": "none"} for j in range(n - 1)], None))
+    validate(chk, events, emeta, "chains")
+    events, emeta = run_programs(chk, programs)
+    validate(chk, events, emeta, "chain-programs")
+
     # impl -> spec: random larger programs
     rng = chk.rng
     programs = []
